@@ -56,3 +56,49 @@ Definition heads {A} (lens : list nat) (bufs : list (list A)) : list (list A) :=
 
 (* all elements are byte values *)
 Definition bytes_ok (s : list N) : bool := forallb (fun b => (b <? 256)%N) s.
+
+(* ---- resumed reading: the file is read in several passes on one reader; a pass names the iterator
+        (0 = record_iter: payloads, 1 = rdw_iter: records with their length word, 2 = bdw_iter: whole blocks)
+        and how many items it takes (None = all that is left).  What every pass must deliver: *)
+Definition render (w : N) (r : list N) : list N := if (w =? 0)%N then r else rdw_rec r.
+
+(* F and V: the next k records (all of them when fewer are left); bdw_iter does not exist there *)
+Fixpoint expect_passes (ps : list (N * option nat)) (rs : list (list N)) : option (list (list (list N))) :=
+  match ps with
+  | [] => Some []
+  | (w, k) :: ps' =>
+      if (w <=? 1)%N then
+        let n := match k with Some n => n | None => length rs end in
+        option_map (cons (map (render w) (firstn n rs))) (expect_passes ps' (skipn n rs))
+      else None
+  end.
+
+(* VB: the shortest run of blocks holding k records; None when the k-th record does not end a block
+   (a record-level pass abandoned inside a block is outside the property: the reader has the block in hand) *)
+Fixpoint split_blocks (k : nat) (bs : list (list (list N))) : option (list (list (list N)) * list (list (list N))) :=
+  match bs with
+  | [] => Some ([], [])
+  | b :: bs' =>
+      if k =? 0 then Some ([], bs)
+      else if length b <=? k
+           then option_map (fun p => (b :: fst p, snd p)) (split_blocks (k - length b) bs')
+           else None
+  end.
+
+Fixpoint expect_passes_VB (ps : list (N * option nat)) (bs : list (list (list N))) : option (list (list (list N))) :=
+  match ps with
+  | [] => Some []
+  | (w, k) :: ps' =>
+      if (w <=? 1)%N then
+        match k with
+        | None => option_map (cons (map (render w) (concat bs))) (expect_passes_VB ps' [])
+        | Some n =>
+            match split_blocks n bs with
+            | Some (now, later) => option_map (cons (map (render w) (concat now))) (expect_passes_VB ps' later)
+            | None => None
+            end
+        end
+      else
+        let n := match k with Some n => n | None => length bs end in
+        option_map (cons (map write_block (firstn n bs))) (expect_passes_VB ps' (skipn n bs))
+  end.
